@@ -46,11 +46,28 @@ def extract_result(ag, idx, w):
 
 
 def call_intersect(cat, case):
-    """cat.intersect on the coarse grid of `case`; returns (values, the live result objects)."""
-    grid = mkgrid(case["nrows"], case["ncols"], case["xll"], case["yll"], case["csz"])
+    """cat.intersect on the coarse grid of `case`; returns (values, the live result objects).
+    Optional keys of the case (option combinations, see gen_lattice):
+      grid_is_flowdir  the grid handed over is the catchment's own flow-direction grid object (the geometry
+                       in the case is then the flow grid's geometry)
+      filled_as        how the option reaches the call: "kw" (filled=bool), "pos" (second positional
+                       argument), "npbool" (a numpy bool, what a comparison returns), "default" (argument
+                       omitted; only generated with filled=False, the documented default)"""
+    if case.get("grid_is_flowdir"):
+        grid = cat.flowdir
+    else:
+        grid = mkgrid(case["nrows"], case["ncols"], case["xll"], case["yll"], case["csz"])
+    how = case.get("filled_as", "kw")
     cm.mark(case)
     try:
-        live = cat.intersect(grid, filled=case["filled"])
+        if how == "pos":
+            live = cat.intersect(grid, bool(case["filled"]))
+        elif how == "npbool":
+            live = cat.intersect(grid, filled=np.bool_(case["filled"]))
+        elif how == "default" and not case["filled"]:
+            live = cat.intersect(grid)
+        else:
+            live = cat.intersect(grid, filled=bool(case["filled"]))
     except ValueError:
         return None, None
     return extract_result(*live), live
@@ -100,7 +117,7 @@ def run_session(case, on_intersect, on_voronoi):
     the object or with the objects it was derived from.
 
     Operations (slot numbers name the objects):
-      new s outlet | delineate s outlet (re-delineation of an existing object) | fromdict s cells cellsf |
+      new s outlet [inlets] | delineate s outlet (re-delineation of an existing object) | fromdict s cells cellsf |
       add d a b | sub d a b | clone d a | roundtrip d a (from_dict(to_dict)) |
       intersect s grid filled | voronoi s pts | plot s filled | touch s what
     A state-changing operation the library refuses (exception) drops the object; later steps on a
@@ -120,7 +137,10 @@ def run_session(case, on_intersect, on_voronoi):
             try:
                 if name == "new":
                     cat = Catchment(f"c{slot}", fd)
-                    cat.delineate_area(op[2])
+                    if len(op) > 3 and op[3]:       # inlets: the area upstream of them is excluded
+                        cat.delineate_area(op[2], list(op[3]))
+                    else:
+                        cat.delineate_area(op[2])
                 elif name == "delineate":
                     cat = objs.get(slot)
                     if cat is None:
@@ -653,6 +673,10 @@ def gen_session(rng, S, G):
             0 <= c // nc + c06.ESRI[fd[c]][0] < nr and 0 <= c % nc + c06.ESRI[fd[c]][1] < nc)] or [n - 1]
         rng.shuffle(outlets)
     grids = [gen_coarse(rng, G, dyadic, nr, nc, xll_a, yll_a, csz_a) for _ in range(rng.choice([1, 2, 2, 3]))]
+    if rng.random() < 0.3:      # the catchment's own flow-direction grid geometry, or next to it
+        grids.append(rel_grid(rng, G, {"nr_a": nr, "nc_a": nc, "xll_a": xll_a, "yll_a": yll_a, "csz_a": csz_a},
+                              rng.choice(["one", "one", "near-one"]), rng.choice(["zero", "zero", "tiny"]),
+                              rng.choice(["same", "same", "near"])))
 
     def pick_outlet():
         return rng.choice(outlets) if rng.random() < 0.7 else rng.randrange(n)
@@ -716,6 +740,221 @@ def gen_session(rng, S, G):
 
 
 # ----------------------------------------------------------------------------
+# option combinations: (kind of catchment: holes or not, installed or delineated) x filled x
+# (relation of the grid to the catchment's own flow-direction grid: cell-size ratio, offset, dimensions)
+
+def ring_flow(rng, nr, nc):
+    """Flow directions (ESRI codes) of a loop of cells - the boundary of a rectangle - draining both ways
+    round to an outlet on the loop, around interior cells that are sinks (the holes of the catchment) or
+    drain into the loop; a few cells outside the rectangle drain into the loop (tails).  One of the
+    interior cells that drain into the loop may be returned as an inlet (the area upstream of it is
+    excluded from the catchment: a hole that is not a sink).  Needs nr, nc >= 3.
+    Returns (codes, outlet, candidate inlets, cells expected in the catchment without inlets, interior cells)."""
+    from harness.props import c06
+    code_of = {d: c for c, d in c06.ESRI.items()}
+    r0 = rng.randint(0, nr - 3)
+    r1 = rng.randint(r0 + 2, nr - 1)
+    c0 = rng.randint(0, nc - 3)
+    c1 = rng.randint(c0 + 2, nc - 1)
+    loop = [(r0, k) for k in range(c0, c1 + 1)] + [(r, c1) for r in range(r0 + 1, r1 + 1)] + \
+        [(r1, k) for k in range(c1 - 1, c0 - 1, -1)] + [(r, c0) for r in range(r1 - 1, r0, -1)]
+    p = rng.randrange(len(loop))
+    loop = loop[p:] + loop[:p]                      # loop[0] is the outlet
+    m = len(loop)
+    h = rng.randint(0, m - 1)                       # cells 1..h drain backwards, h+1..m-1 forwards
+    fd = [0] * (nr * nc)
+    for i in range(1, m):
+        j = i - 1 if i <= h else (i + 1) % m
+        fd[loop[i][0] * nc + loop[i][1]] = code_of[(loop[j][0] - loop[i][0], loop[j][1] - loop[i][1])]
+    inloop = set(loop)
+    interior = [(r, k) for r in range(r0 + 1, r1) for k in range(c0 + 1, c1)]
+    draining = set(inloop)
+    joined, tails = [], []
+    nb4 = [(-1, 0), (1, 0), (0, -1), (0, 1)]
+    for r, k in rng.sample(interior, len(interior)):
+        tg = [(r + dr, k + dc) for dr, dc in nb4 if (r + dr, k + dc) in draining]
+        if tg and rng.random() < 0.3 and len(joined) < len(interior) - 1:     # one sink at least stays
+            t = rng.choice(tg)
+            fd[r * nc + k] = code_of[(t[0] - r, t[1] - k)]
+            draining.add((r, k))
+            joined.append((r, k))
+    for r in range(nr):
+        for k in range(nc):
+            if r0 <= r <= r1 and c0 <= k <= c1:
+                continue
+            tg = [(r + dr, k + dc) for dr, dc in nb4 if (r + dr, k + dc) in inloop]
+            if tg and rng.random() < 0.2:
+                t = rng.choice(tg)
+                fd[r * nc + k] = code_of[(t[0] - r, t[1] - k)]
+                tails.append((r, k))
+    # the outlet: a sink, or draining out of the rectangle (to a cell that is not in the catchment / off the grid)
+    orow, ocol = loop[0]
+    outs = [(dr, dc) for dr, dc in code_of if not (r0 <= orow + dr <= r1 and c0 <= ocol + dc <= c1)
+            and (orow + dr, ocol + dc) not in tails]
+    if outs and rng.random() < 0.5:
+        fd[orow * nc + ocol] = code_of[rng.choice(outs)]
+    cells = [r * nc + k for r, k in loop + joined + tails]
+    return fd, orow * nc + ocol, [r * nc + k for r, k in joined], cells, [r * nc + k for r, k in interior]
+
+
+LATTICE_KINDS = ["blob", "holed", "delin-holed", "delin-inlet", "delin-any"]
+RATIO_LEVELS = {
+    # exactly the catchment's own cell size
+    "one": [1.0],
+    # next to it (numpy.isclose, which Grid.same_geometry uses, holds up to about 1e-5 relative)
+    "near-one": [1 + 1e-9, 1 - 1e-9, 1 + 4e-6, 1 - 4e-6, 1 + 2e-5, 1 + 2.0 ** -40, 1.001],
+    # elsewhere (2 = where intersect stops warning about a grid that is too fine; below 1 = a finer grid)
+    "other": [2.0, 2.0, 3.0, 4.0, 4.0, 1.5, 2.5, 2 - 1e-9, 2 + 1e-9, 0.5, 0.75, None]}
+OFFSET_LEVELS = ["zero", "tiny", "aligned", "one-axis", "unaligned"]
+DIM_LEVELS = ["same", "near", "other"]
+
+
+def rel_grid(rng, G, geo, rl, ol, dl):
+    """A grid in a stated relation to the flow-direction grid `geo` of a catchment: rl = level of the
+    cell-size ratio, ol = level of the offset of the lower-left corner, dl = level of the dimensions."""
+    nr, nc, xll_a, yll_a, csz_a = (geo[k] for k in ("nr_a", "nc_a", "xll_a", "yll_a", "csz_a"))
+    ratio = rng.choice(RATIO_LEVELS[rl])
+    if ratio is None:
+        ratio = rng.uniform(1, 4)
+    csz = csz_a * ratio
+
+    def tiny(base):
+        t = rng.choice(["abs", "abs", "rel", "cell", "ulp"])
+        s = rng.choice([-1, 1])
+        if t == "ulp":
+            return math.nextafter(base, s * math.inf)
+        d = {"abs": 5e-9, "rel": 4e-6 * abs(base), "cell": rng.choice([1e-12, 1e-7]) * csz_a}[t]
+        v = base + s * d
+        return v if v != base else math.nextafter(base, s * math.inf)
+
+    def aligned(base):
+        return base + rng.choice([-2, -1, 1, 2, 3]) * csz_a * rng.choice([1, 1, ratio])
+
+    def unaligned(base):
+        return base + rng.choice([0.5, -0.5, 0.25, 0.3, -1.5, rng.uniform(-2, 2)]) * csz_a
+
+    if ol == "zero":
+        xll, yll = xll_a, yll_a
+    elif ol == "tiny":
+        xll, yll = rng.choice([(tiny(xll_a), yll_a), (xll_a, tiny(yll_a)), (tiny(xll_a), tiny(yll_a))])
+    elif ol == "aligned":
+        xll, yll = rng.choice([(aligned(xll_a), aligned(yll_a)), (aligned(xll_a), yll_a), (xll_a, aligned(yll_a))])
+    elif ol == "one-axis":        # one axis exactly the catchment's, the other not
+        f = rng.choice([aligned, unaligned, tiny])
+        xll, yll = (f(xll_a), yll_a) if rng.random() < 0.5 else (xll_a, f(yll_a))
+    else:
+        xll, yll = unaligned(xll_a), rng.choice([unaligned, aligned])(yll_a)
+    if dl == "same":
+        gr, gc = nr, nc
+    elif dl == "near":
+        gr, gc = rng.choice([(nr, nc + 1), (nr + 1, nc), (nr - 1, nc), (nr, nc - 1), (nr + 1, nc + 1)] +
+                            ([(nc, nr)] * 2 if nr != nc else []))
+    else:
+        e = rng.choice([0, 0, 1])
+        gr, gc = rng.choice([(int(math.ceil(nr / ratio)) + e, int(math.ceil(nc / ratio)) + e), (1, 1),
+                             (1, rng.randint(1, G)), (rng.randint(1, G), 1), (rng.randint(1, G), rng.randint(1, G)),
+                             (2 * nr, 2 * nc)])
+        if (gr, gc) == (nr, nc):
+            gc += 1
+    g = {"nrows": max(gr, 1), "ncols": max(gc, 1), "xll": xll, "yll": yll, "csz": csz, "lattice": [rl, ol, dl]}
+    if (rl, ol, dl) == ("one", "zero", "same") and rng.random() < 0.5:
+        g["grid_is_flowdir"] = True         # the very object the catchment was built on
+    return g
+
+
+def gen_lattice(rng, S, G, combos, nsteps=10):
+    """Cases for the given list of combinations (kind of catchment, filled, ratio level, offset level,
+    dimension level), `nsteps` combinations of the same kind per catchment: installed catchments
+    (from_dict) give one single-call case per combination, delineated ones an operation sequence
+    `new` + one intersect per combination (the cell sets are then whatever delineate_area - scipy's hole
+    filling included - put into the object)."""
+    out = []
+    bykind = {}
+    for cb in combos:
+        bykind.setdefault(cb[0], []).append(cb)
+    for kind, cbs in bykind.items():
+        for i0 in range(0, len(cbs), nsteps):
+            chunk = cbs[i0:i0 + nsteps]
+            dyadic = rng.random() < 0.7
+            _, _, xll_a, yll_a, csz_a = gen_fine(rng, S, dyadic)
+            nr, nc = rng.randint(3, min(S, 7)), rng.randint(3, min(S, 7))
+            if nr == nc and rng.random() < 0.7:
+                nc = nc + 1 if nc < min(S, 7) else nc - 1
+            n = nr * nc
+            geo = {"nr_a": nr, "nc_a": nc, "xll_a": xll_a, "yll_a": yll_a, "csz_a": csz_a}
+
+            def option(filled):
+                m = rng.random()
+                return "kw" if m < 0.6 else "pos" if m < 0.75 else "npbool" if m < 0.9 or filled else "default"
+
+            if kind in ("blob", "holed"):
+                if kind == "blob":          # a full rectangle: nothing to fill
+                    r0, k0 = rng.randint(0, nr - 1), rng.randint(0, nc - 1)
+                    r1, k1 = rng.randint(r0, nr - 1), rng.randint(k0, nc - 1)
+                    cells = [r * nc + k for r in range(r0, r1 + 1) for k in range(k0, k1 + 1)]
+                    cellsf = sorted(cells)
+                elif rng.random() < 0.6:    # a loop (and what drains into it) around its interior
+                    _, _, _, cells, interior = ring_flow(rng, nr, nc)
+                    cellsf = sorted(set(cells) | set(interior))
+                    if set(cellsf) == set(cells):
+                        cells = [c for c in cells if c != interior[0]]
+                else:                       # a full rectangle with pits
+                    r0, k0 = rng.randint(0, nr - 3), rng.randint(0, nc - 3)
+                    r1, k1 = rng.randint(r0 + 2, nr - 1), rng.randint(k0 + 2, nc - 1)
+                    cellsf = [r * nc + k for r in range(r0, r1 + 1) for k in range(k0, k1 + 1)]
+                    inner = [r * nc + k for r in range(r0 + 1, r1) for k in range(k0 + 1, k1)]
+                    pits = set(rng.sample(inner, rng.randint(1, min(3, len(inner)))))
+                    cells = [c for c in cellsf if c not in pits]
+                rng.shuffle(cells)
+                for _, filled, rl, ol, dl in chunk:
+                    g = rel_grid(rng, G, geo, rl, ol, dl)
+                    lat = [kind] + g.pop("lattice")
+                    out.append(dict(geo, kind="intersect", cells=list(cells), cellsf=list(cellsf), filled=filled,
+                                    dyadic=dyadic and rl != "near-one", mode="lattice", lattice=lat,
+                                    filled_as=option(filled), **g))
+                continue
+            # delineated: the object is made by delineate_area on a flow grid
+            inlets = None
+            if kind == "delin-any":
+                from harness.props import c06
+                if rng.random() < 0.6:
+                    fd, outlets = gen_comb(rng, nr, nc)
+                else:
+                    fd = c06.rand_acyclic(rng, nr, nc)
+                    outlets = list(c06.good_outlets(rng, fd, nr, nc))[:2] or [n - 1]
+                outlet = rng.choice(outlets)
+            else:
+                for _ in range(20):
+                    fd, outlet, joined, _, _ = ring_flow(rng, nr, nc)
+                    if kind == "delin-holed" or joined:
+                        break
+                if kind == "delin-inlet" and joined:
+                    inlets = rng.sample(joined, rng.choice([1, 1, min(2, len(joined))]))
+            ops = [["new", 0, outlet, inlets]]
+            for _, filled, rl, ol, dl in chunk:
+                g = rel_grid(rng, G, geo, rl, ol, dl)
+                g["lattice"] = [kind] + g["lattice"]
+                g["filled_as"] = option(filled)
+                ops.append(["intersect", 0, g, filled])
+            out.append(dict(geo, kind="session", dyadic=dyadic, fd=fd, ops=ops, mode="lattice"))
+    return out
+
+
+def lattice_combos(rng, extra):
+    """Every combination kind x filled x ratio level x offset level x dimension level once, plus `extra`
+    random ones (drawn towards the catchment's own geometry); in random order, so that the combinations sharing a catchment object differ from run to run."""
+    full = [(k, f, rl, ol, dl) for k in LATTICE_KINDS for f in (False, True) for rl in RATIO_LEVELS
+            for ol in OFFSET_LEVELS for dl in DIM_LEVELS]
+    def pick(levels):        # the first level (the catchment's own ratio / corner / dimensions) half of the time
+        levels = list(levels)
+        return levels[0] if rng.random() < 0.5 else rng.choice(levels[1:])
+    combos = full + [(rng.choice(LATTICE_KINDS), rng.random() < 0.5, pick(RATIO_LEVELS), pick(OFFSET_LEVELS),
+                      pick(DIM_LEVELS)) for _ in range(extra)]
+    rng.shuffle(combos)
+    return combos
+
+
+# ----------------------------------------------------------------------------
 
 def run(ctx):
     ctx.rule = ("Catchment.intersect: fine grids up to 12x12 (thorough 30x30), cell subsets of size 0/1/2/all/random, "
@@ -748,7 +987,9 @@ def run(ctx):
     terms, replays = [], []
     orc_fail = set()
     stats = {"intersect": 0, "intersect_error": 0, "intersect_edge_ambiguous": 0, "kernel": 0,
-             "voronoi": 0, "voronoi_cells_with_ties": 0, "voronoi_empty": 0, "session": 0, "session_steps": 0}
+             "voronoi": 0, "voronoi_cells_with_ties": 0, "voronoi_empty": 0, "session": 0, "session_steps": 0,
+             "intersect_combination_classes": 0, "intersect_own_geometry": 0,
+             "intersect_own_geometry_filled_with_holes": 0, "intersect_grid_is_flowdir_object": 0}
 
     def add(term, replay, sig):
         terms.append(term)
@@ -766,12 +1007,20 @@ def run(ctx):
         """Oracle + correspondence term for one call of Catchment.intersect with outcome r."""
         fails, (sure_in, may_in) = oracle_intersect(case, r)
         cs = case["cellsf"] if case["filled"] else case["cells"]
+        own = all(case[a] == case[b] for a, b in (("nrows", "nr_a"), ("ncols", "nc_a"), ("xll", "xll_a"),
+                                                   ("yll", "yll_a"), ("csz", "csz_a")))
+        holes = set(case.get("cellsf", case["cells"])) != set(case["cells"])
         sig = sig_head + (r is None, min(len(cs), 3), min(len(r["idx"]) if r else 0, 3), sure_in != may_in,
                           sure_in == len(cs), sure_in == 0, case["filled"], case.get("dyadic"),
                           round(case["csz"] / case["csz_a"], 1) if case["csz_a"] else None,
-                          case["nrows"] == 1, case["ncols"] == 1)
+                          case["nrows"] == 1, case["ncols"] == 1, own, holes,
+                          tuple(case.get("lattice") or ()), case.get("filled_as"), bool(case.get("grid_is_flowdir")))
         i = add(term_intersect(case, r), replay, sig)
         stats["intersect"] += 1
+        stats["intersect_combination_classes"] += "lattice" in case
+        stats["intersect_own_geometry"] += own
+        stats["intersect_own_geometry_filled_with_holes"] += own and holes and bool(case["filled"])
+        stats["intersect_grid_is_flowdir_object"] += bool(case.get("grid_is_flowdir"))
         stats["intersect_error"] += r is None
         stats["intersect_edge_ambiguous"] += sure_in != may_in
         for suffix, msg in fails:
@@ -861,6 +1110,11 @@ def run(ctx):
         do_intersect(gen_ring(rng))
     for _ in range(ctx.scale(60, 600)):
         do_intersect(gen_delineated(rng, S))
+    # option combinations: every (kind of catchment x filled x ratio level x offset level x dimension level)
+    # at least once (thorough: 8 times) + random ones
+    for _ in range(ctx.scale(1, 8)):
+        for case in gen_lattice(rng, S, G, lattice_combos(rng, ctx.scale(60, 400))):
+            DO[case["kind"]](case)
     for _ in range(ctx.scale(400, 4000)):
         do_kernel(gen_kernel(rng, G))
     for _ in range(ctx.scale(NSESS_QUICK, 1000)):
